@@ -86,33 +86,7 @@ def run(ctx):
     fetchlatch.continue_resumes(ctx)
 
     # ---- reset state ---------------------------------------------------
-    from .. import absint, step
-    I = absint.Interp(ctx.p)
-    st = absint.State()
-    m0 = I.run_body(ctx.p.need_body(step.RM + "::new"), [], st, 0)
-    ma = I.new_alloc(st, "machine", m0)
-    a0 = step.field(ctx.p, I, st, ma, "microprogram_ram.current_index")
-    i0 = step.field(ctx.p, I, st, ma, "instruction_register.content.bits")
-    if not (isinstance(a0, int) and isinstance(i0, int)):
-        raise AnchorMissing("power-on micro-address / IR not constant: %r %r" % (a0, i0))
-    chk.note("power-on control state: micro-address %#x, IR %#x (constant-propagated from RawMachine::new)" % (a0, i0))
-
-    # "from reset": both resets and a program load leave the sequencer in that same control state, whatever the
-    # machine was doing (the dispatch of control word 0 depends on the IR: a stale opcode would select another routine)
-    for ty, meth in ((step.RM, "cpu_reset"), (step.RM, "master_reset"), (step.MACHINE, "cpu_reset"), (step.MACHINE, "master_reset")):
-        I2 = absint.Interp(ctx.p)
-        ov = step.machine_overrides(ctx.p, None, ["Running", "Stopped", "ErrorStopped"], None)
-        ov["instruction_register.content.bits"] = frozenset(range(256))
-        st2, ma2, _r = step.run_method(ctx.p, I2, "%s::%s" % (ty, meth), ov, ty=ty)
-        pre = "" if ty == step.RM else "raw."
-        a1 = step.field(ctx.p, I2, st2, ma2, pre + "microprogram_ram.current_index", ty=ty)
-        i1 = step.field(ctx.p, I2, st2, ma2, pre + "instruction_register.content.bits", ty=ty)
-        nm = "%s::%s" % (ty.rsplit("::", 1)[-1], meth)
-        chk.ob("reset-control-state/%s" % nm, a1 == a0 and i1 == i0,
-               "a reset puts the sequencer into the power-on control state (micro-address and instruction register), "
-               "from any state", ctx.p.need_body("%s::%s" % (ty, meth)).loc(),
-               "after the call: micro-address %r, IR %r; power-on: %#x, %#x" % (a1, i1, a0, i0),
-               "A4 of the reset on a machine with every field unknown")
+    a0, i0 = fetchlatch.reset_control_state(ctx)
 
     # ---- per first byte -------------------------------------------------
     def dispatch_states(b):
